@@ -190,6 +190,7 @@ type World struct {
 	trace      bool
 	randCtr    int
 	ended      bool
+	setup      bool
 	enabledBuf []cand
 	costOne    []bool
 }
@@ -493,7 +494,7 @@ func (w *World) pick(me *Thread) (*Thread, *timer, bool) {
 		return nil, nil, true
 	}
 	idx := 0
-	if n > 1 {
+	if n > 1 && !w.setup {
 		// cost of alternative i>0
 		costs := w.costOne[:0]
 		for i, c := range cands {
@@ -724,7 +725,7 @@ func ChooseDev(n int) int {
 
 func chooseCost(n int, cost int, k Kind) int {
 	w := live()
-	if w == nil || n <= 1 {
+	if w == nil || n <= 1 || w.setup {
 		return 0
 	}
 	t := w.cur
@@ -758,6 +759,26 @@ func Quiesce() {
 		t.vc = t.vc.join(o.vc)
 	}
 	w.event(t, KQuiesce, w.namedObj("\x00quiesce"), true, 0)
+}
+
+// BeginSetup starts a deterministic setup phase: until EndSetup the scheduler always takes
+// the default alternative and records no choice points (fixtures such as the engine, the
+// monitor and subscriptions are built along one fixed schedule, so that the explored space
+// is the scenario proper and not the fixture construction).
+func BeginSetup() {
+	if w := live(); w != nil {
+		w.setup = true
+	}
+}
+
+// EndSetup waits for quiescence (still in setup mode) and then switches exploration on.
+func EndSetup() {
+	w := live()
+	if w == nil {
+		return
+	}
+	Quiesce()
+	w.setup = false
 }
 
 // Touch records a write event on a named virtual object without being a scheduling point.
